@@ -28,9 +28,13 @@ func (*c12) CoqImport() string { return c12Import }
 
 func (*c12) Rule() string {
 	return "histories of 1-4 real operations (install first 7/8, then install/upgrade/rollback/uninstall) whose charts carry 0-4 hooks: " +
-		"kinds ConfigMap (mostly) / Secret / ServiceAccount, names from a 4-name pool (same name under two kinds and the same key twice occur), " +
+		"kinds ConfigMap (mostly) / Secret / ServiceAccount / Pod / Job, names from a 4-name pool (same name under two kinds and the same key twice occur), " +
 		"weights -2..2 (ties frequent), 1-3 events per hook biased to the events of the operations in the history, an event repeated in one " +
-		"annotation 1/8, every subset of the three delete policies; flags no-hooks 1/8, atomic 1/8, cleanup-on-fail 1/6, keep-history 1/2; " +
+		"annotation 1/8, every subset of the three delete policies; half of the charts spell their hook metadata as raw ANNOTATION STRINGS: the " +
+		"weight from one of six palettes (zero padded 01..10/007/010/08/09, 0x/0o/0b prefixes and underscores, white space and signs, empty / " +
+		"not integers, int64 and int32 boundaries, mostly plain) or no weight annotation (1/12), event and policy names in upper case / capitalised / " +
+		"with surrounding blanks, tabs, newlines and ', ' separators, test-success, an unknown policy token 1/8 (hooks whose delete-policy annotation " +
+		"has unknown tokens only get the event test), an unknown event name 1/20 (document dropped), an output-log policy 1/4 (3/4 for Pod / Job); flags no-hooks 1/8, atomic 1/8, cleanup-on-fail 1/6, keep-history 1/2; " +
 		"per operation one of: no fault (45%), the n-th (0/1) watch of one hook fails (33%), POST of a hook resource rejected (8%), DELETE of a " +
 		"hook resource rejected (4%), a non-hook failure (10%: readiness wait fails / CREATE of a manifest resource rejected; always drawn for half of the " +
 		"atomic operations, so that the automatic uninstall / rollback runs with hooks enabled and disabled); non-trivial = some operation issued at least 2 hook creations or had a failing hook; distinct = hash of (case, observation)"
